@@ -5,7 +5,7 @@ Bounded-exhaustive product (nothing sampled): body scripts (all sequences of len
 script per attempt) x session configurations x forms
 
   dec     @db_session(...) on a function, retry 0..2, allowed_exceptions / retry_exceptions as class
-          lists, callables and callables that raise, strict/immediate/serializable/optimistic/ddl
+          lists, callables and callables that raise, strict/immediate/serializable/optimistic/ddl/sql_debug
   cm      `with db_session(...)`
   nest    2..3 nested sessions (decorator / context manager per level, options and allowed lists on
           inner and outer levels, an operation after the inner session returned)
@@ -34,7 +34,7 @@ CLASSNAME = dict(A='AllowedExc', SA='SubAllowed', R='RetryableExc', SR='SubRetry
                  SH='ShouldRetryExc', TE='MyTransactionError', AR='BothExc', HR='HTTPResponse',
                  HE='HTTPError', TypeError='TypeError', PTE='TransactionError',
                  AErr='AllowedCallableError', RErr='RetryCallableError')
-OPTS = ('none', 'strict', 'immediate', 'serializable', 'optimistic0', 'ddl')
+OPTS = ('none', 'strict', 'immediate', 'serializable', 'optimistic0', 'ddl', 'sql_debug')
 LEVEL_DEFAULT = dict(kind='cm', retry=0, allowed='none', rexc='default', opt='none', post=None)
 
 # ---------------------------------------------------------------------------------------------
@@ -360,7 +360,8 @@ def run_ops(E, ops, st):
         else: raise core.HarnessError('op %r' % (o,))
 
 OPT_KW = dict(none={}, strict=dict(strict=True), immediate=dict(immediate=True),
-              serializable=dict(serializable=True), optimistic0=dict(optimistic=False), ddl=dict(ddl=True))
+              serializable=dict(serializable=True), optimistic0=dict(optimistic=False), ddl=dict(ddl=True),
+              sql_debug=dict(sql_debug=False))     # pushes / pops the thread's debug state on entry / exit
 
 def session_kwargs(E, L):
     kw = dict(OPT_KW[L.get('opt', 'none')])
@@ -788,9 +789,9 @@ def blocks(quick):
             for opt in OPTS:
                 B.append(('cm', retry, a, opt, 2 if (quick and (retry or opt != 'none')) else 3))
     # ---- nested sessions
-    outers = level_variants(('dec', 'cm'), ('none', 'list'), ('none', 'retry1', 'ddl', 'serializable'),
+    outers = level_variants(('dec', 'cm'), ('none', 'list'), ('none', 'retry1', 'ddl', 'serializable', 'sql_debug'),
                             (None, 'W', '!O'))
-    inners = level_variants(('dec', 'cm'), ('none', 'list'), ('none', 'retry1', 'ddl', 'serializable'),
+    inners = level_variants(('dec', 'cm'), ('none', 'list'), ('none', 'retry1', 'ddl', 'serializable', 'sql_debug'),
                             (None, 'W', '!O'))
     mids2 = [()]
     mids3 = [(m,) for m in level_variants(('dec', 'cm'), ('none',), ('none',), (None, '!O'))]
@@ -809,7 +810,7 @@ def blocks(quick):
             B.append((fam, v, 3 if not v else 2))
     # ---- generator functions
     for nseg in (1, 2, 3):
-        for opt in ('none', 'immediate', 'strict', 'optimistic0', 'ddl', 'serializable'):
+        for opt in ('none', 'immediate', 'strict', 'optimistic0', 'sql_debug', 'ddl', 'serializable'):
             for allowed in ('none', 'list'):
                 for retry in (0, 1):
                     for inside in (False, True):
@@ -886,11 +887,14 @@ def run(ctx):
     c = ctx.counters
     ctx.cov['distinct_outcomes'] = len(outcomes)
     ctx.cov['blocks'] = len(B)
-    ctx.cov['bounds'] = ('quick: scripts <=3 ops (retry 0, context manager, flask, bottle), <=2 (retry 1-2), later attempts <=1; '
-                         'nesting depth 2-3 with scripts <=1; generators 1-3 segments of <=2/<=1 ops'
-                         if ctx.quick else
-                         'thorough: scripts <=3 ops for the first attempt, <=1 for later attempts; nesting depth 2 with scripts <=2, '
-                         'depth 3 with scripts <=1 (<=2 without inner post-operation); generators 1-2 segments of <=3 ops, 3 segments of <=2')
+    ctx.cov['bounds'] = (
+        'quick: first-attempt scripts <=3 ops (decorator retry=0, context manager, flask, bottle), <=2 (retry 1-2, plain options), '
+        '<=1 (retry 1-2 with strict/immediate/...); later attempts <=1 op; nesting depth 2 and 3 with scripts <=1 op; generators with '
+        '1-2 segments of <=2 ops (<=1 with options / a session in between), 3 segments of <=1 op'
+        if ctx.quick else
+        'thorough: first-attempt scripts <=3 ops everywhere at depth 1; second attempt <=2 ops (retry=1), later attempts <=1 op (retry=2); '
+        'nesting depth 2 with scripts <=2 ops, depth 3 with <=1 op (<=2 without an operation after the innermost session); generators '
+        'with 1-2 segments of <=3 ops (<=2 with options), 3 segments of <=2 ops (<=1 with options / a session in between)')
     for form, minimum in (('dec', 2000), ('cm', 1000), ('nest', 5000), ('gen', 2000), ('flask', 500), ('bottle', 500)):
         ctx.guard('cases of form ' + form, c.get('cases:' + form, 0), minimum)
     ctx.guard('cases with a propagated exception', c.get('propagated_exception', 0), 1000)
